@@ -91,3 +91,15 @@ Theorem C04_spec_side_accepts_model : forall w st urls, urls <> [] ->
   Run.C04.c04_spec w st urls (cr_result (fst (ocsp_check (w_ocsp w) (w_now w) st urls))) = 0%Z.
 Proof. exact model_passes_c04_spec. Qed.
 Print Assumptions C04_spec_side_accepts_model.
+
+(* time only invalidates a response *)
+Theorem C04_server_check_antitone : forall outcome now now' st u, now <= now' ->
+  server_check outcome now' st u <> CError ->
+  server_check outcome now st u = server_check outcome now' st u.
+Proof. exact server_check_antitone. Qed.
+Print Assumptions C04_server_check_antitone.
+
+Theorem C04_server_error_persists : forall outcome now now' st u, now <= now' ->
+  server_check outcome now st u = CError -> server_check outcome now' st u = CError.
+Proof. exact server_error_persists. Qed.
+Print Assumptions C04_server_error_persists.
